@@ -77,3 +77,55 @@ def rule(prog, rep, R, name, site_key=None):
     else:
         rep.violated(R, site, key, res[1])
     return True
+
+
+# ---------------------------------------------------------------------------- Concatenate._argcheck_shapes
+class _SelfAxis:
+    pass
+
+
+def decide_concatenate_argcheck(prog, ref_src):
+    """Concatenate._argcheck_shapes(shapes) with self.axis = k: raises exactly when the reference (the documented check,
+    evaluated by the same evaluator) raises, on every list of 1..3 shapes over a universe that mixes ranks, for
+    axis in {0, 1, -1, -2}.  -> ("holds", n) | ("violated", msg) | None."""
+    import ast as _ast
+    from .shapeexec import StubObj, _Closure
+    cq = "flowjax.bijections.concatenate.Concatenate"
+    try:
+        c = prog.cls(cq)
+        owner, fn = prog.method(cq, "_argcheck_shapes")
+    except Exception:  # noqa: BLE001
+        return None
+    ref_fn = _ast.parse(ref_src).body[0]
+    uni = ((2,), (3,), (2, 3), (2, 4), (3, 3), (2, 3, 4), (2, 5, 4))
+
+    class Self(StubObj):
+        def __init__(self, axis):
+            self.axis = axis
+
+    def outcome(fdef, module, shapes, axis):
+        ev = Evaluator(prog, module=module)
+        ev.index_errors_raise = True
+        try:
+            ev.apply(_Closure(fdef, {}, ev, Self(axis), module=module), [list(shapes)], {})
+            return "ok"
+        except Raised as e:
+            return "raises " + str(e.exc).split("(")[0]
+    n = 0
+    for k in (1, 2, 3):
+        for shapes in itertools.product(uni, repeat=k):
+            for axis in (0, 1, -1, -2):
+                try:
+                    want = outcome(ref_fn, owner.module, shapes, axis)
+                except (Unsupported, Budget, TypeError):
+                    want = "index-error"     # the axis does not exist for shapes[0]: outside the validator's contract
+                if want == "index-error":
+                    continue
+                try:
+                    got = outcome(fn, owner.module, shapes, axis)
+                except (Unsupported, Budget, TypeError):
+                    return None
+                n += 1
+                if got != want:
+                    return ("violated", f"Concatenate(axis={axis})._argcheck_shapes({list(shapes)!r}): {got}; the documented check: {want}")
+    return ("holds", n)
